@@ -344,7 +344,9 @@ func runTimed(c *h.Ctx, r *h.Report) {
 	for i := 0; i < n; i++ {
 		rr := c.Rand.Fork()
 		cs := timedCase{Horizon: 150000}
-		cs.WT = h.Pick(rr, []int{0, 0, 5000, 20000, 60000, 120000})
+		// (the write timeout is applied before the dispatch timeout, as the Caddy module and the legacy configuration
+		// do; values below the 5 s default dispatch timeout included)
+		cs.WT = h.Pick(rr, []int{0, 0, 1000, 3000, 5000, 20000, 60000, 120000})
 		cs.DT = h.Pick(rr, []int{0, 1000, 5000, 30000})
 		cs.HB = h.Pick(rr, []int{0, 7000, 13000, 40000})
 		if rr.Chance(1, 2) {
